@@ -115,13 +115,16 @@ def gen_case(rng, nworkers=None, size=None, heavy=False, safe=False):
     size = size or rng.choice([4, 8, 14, 22])
     g = Gen(rng, nmutex, heavy, safe)
     progs = []
-    # main: spawn everybody (own work in between), then join in some order, peek after join
+    # spawn tree: every worker is created (and joined, and read) by main or by a worker with a smaller number
+    parent = {u: (0 if u == 1 or rng.random() < .75 else rng.randrange(1, u)) for u in range(1, nworkers + 1)}
+    kids = {t: [u for u in parent if parent[u] == t] for t in range(0, nworkers + 1)}
+    # main: spawn its children (own work in between), then join in some order, peek after join
     main = []
-    for u in range(1, nworkers + 1):
+    for u in kids[0]:
         main.append('S%d' % u)
         if rng.random() < .3: main += g.block(1, set(), 0, [])
     main += g.block(rng.randrange(0, max(2, size // 2)), set(), 0, [])
-    order = list(range(1, nworkers + 1)); rng.shuffle(order)
+    order = list(kids[0]); rng.shuffle(order)
     pending = []
     for u in order:
         main.append('J%d' % u)
@@ -140,6 +143,25 @@ def gen_case(rng, nworkers=None, size=None, heavy=False, safe=False):
                 p += g.sync_op(0, []) or ['y']
                 if rng.random() < .4: p += g.local_op(set(), 1, [])
         else: p = g.block(rng.randrange(1, size + 1), set(), 0, [])
+        if kids[u]:
+            # a worker that creates threads: S / J / P only between top-level statements, outside lock..unlock
+            stmts = top_statements(' '.join(p))
+            free, held = [0], 0
+            for n, st in enumerate(stmts):
+                if st[0] in 'LT' and st[1:].isdigit(): held += 1
+                elif st[0] == 'U': held -= 1
+                if held == 0: free.append(n + 1)
+            ins = {}
+            for k in kids[u]:
+                a = rng.choice(free); b = rng.choice([x for x in free if x >= a])
+                ins.setdefault(a, []).append('S%d' % k)
+                ins.setdefault(b, []).append('~J%d' % k + (' P%d' % k if rng.random() < .8 else ''))
+            out = []
+            for n in range(len(stmts) + 1):
+                todo = ins.get(n, [])
+                out += [x for x in todo if x[0] == 'S'] + [x[1:] for x in todo if x[0] == '~']
+                if n < len(stmts): out.append(stmts[n])
+            p = ' '.join(out).split()
         progs.append(p)
     total = sum(len(p) for p in progs) * 3 + 10
     sched = [rng.randrange(0, nworkers + 1) for _ in range(min(total, 400))]
@@ -215,18 +237,40 @@ def first_diff(a, b):
 
 
 def spawned(case):
-    """threads the main program starts (a thread that is never started never runs)"""
-    f = case.split('|')
-    return {0} | {int(t[1:]) for t in f[2].split() if t[0] == 'S' and t[1:].isdigit()}
+    """threads that are started: main, and every thread some started thread creates (top-level S<u>)"""
+    progs = case.split('|')[2:]
+    live, todo = {0}, [0]
+    while todo:
+        t = todo.pop()
+        if t >= len(progs):
+            continue
+        for tok in progs[t].split():
+            if tok[0] == 'S' and tok[1:].isdigit() and int(tok[1:]) not in live:
+                live.add(int(tok[1:])); todo.append(int(tok[1:]))
+    return live
 
 
 def joined_peeks(case):
-    """for every P<u> of the main program (in order): was it preceded by J<u> and S<u>?"""
-    res, joined, started = [], set(), set()
-    for t in case.split('|')[2].split():
-        if t[0] == 'S' and t[1:].isdigit(): started.add(t[1:])
-        elif t[0] == 'J' and t[1:].isdigit() and t[1:] in started: joined.add(t[1:])
-        elif t[0] == 'P' and t[1:].isdigit(): res.append(t[1:] in joined)
+    """per thread t: for every P<u> of its program (in order): was it preceded by t's own S<u> and J<u>?"""
+    res = {}
+    for t, prog in enumerate(case.split('|')[2:]):
+        out, joined, started = [], set(), set()
+        for tok in prog.split():
+            if tok[0] == 'S' and tok[1:].isdigit(): started.add(tok[1:])
+            elif tok[0] == 'J' and tok[1:].isdigit() and tok[1:] in started: joined.add(tok[1:])
+            elif tok[0] == 'P' and tok[1:].isdigit(): out.append(tok[1:] in joined)
+        res[t] = out
+    return res
+
+
+def seen_by_thread(text):
+    """'t:P<u>=[..];..' -> dict t -> [(u, trace text)] in the order the thread read them"""
+    res = {}
+    for item in (text.split(';') if text else []):
+        m = re.match(r'(\d+):P(\d+)=\[(.*)\]$', item)
+        if not m:
+            return None
+        res.setdefault(int(m.group(1)), []).append((int(m.group(2)), m.group(3)))
     return res
 
 
@@ -256,15 +300,16 @@ def oracle(case, impl, spec):
     # join publishes: what the joiner read = the complete trace of the joined thread
     if p['seen']:
         ok_peeks = joined_peeks(case)
-        for n, item in enumerate(p['seen'].split(';')):
-            m = re.match(r'(\d+):P(\d+)=\[(.*)\]$', item)
-            if not m:
-                return 'malformed peek ' + item
-            u = int(m.group(2))
-            if n >= len(ok_peeks) or not ok_peeks[n]:
-                continue       # a read without a preceding join promises nothing
-            if m.group(3).split(',') != p['conc'].get(u, []) and not (m.group(3) == '' and not p['conc'].get(u)):
-                return 'after join(%d) the joiner read an incomplete trace: %s' % (u, first_diff(m.group(3).split(','), p['conc'].get(u, [])))
+        seen = seen_by_thread(p['seen'])
+        if seen is None:
+            return 'malformed peek section ' + p['seen'][:200]
+        for t, items in sorted(seen.items()):
+            for n, (u, text) in enumerate(items):
+                if t not in live or n >= len(ok_peeks.get(t, [])) or not ok_peeks[t][n]:
+                    continue       # a read without a preceding join promises nothing
+                got = text.split(',') if text else []
+                if got != p['conc'].get(u, []):
+                    return 'after join(%d) thread %d read an incomplete trace: %s' % (u, t, first_diff(got, p['conc'].get(u, [])))
     return None
 
 
@@ -306,8 +351,12 @@ def corr(case, impl, model):
     if p['cells'] != mcells and 'Q' not in case:      # a try-once section may be skipped: its counter is schedule dependent
         return 'counters %s, model %s' % (p['cells'], mcells)
     okp = joined_peeks(case)
-    keep = lambda l: [x for n, x in enumerate(l) if n < len(okp) and okp[n]]
-    if keep(canon_seen(p['seen'])) != keep(canon_seen(mseen)):
+
+    def keep(text):
+        sb = seen_by_thread(text) or {}
+        return {t: [(u, canon_text(x, digests=False)) for n, (u, x) in enumerate(items)
+                    if n < len(okp.get(t, [])) and okp[t][n]] for t, items in sb.items() if t in live}
+    if keep(p['seen']) != keep(mseen):
         return 'peeks differ: %s / %s' % (p['seen'][:200], mseen[:200])
     for k in ('double', 'unfin', 'rootkill', 'stale'):
         if int(p['x'].get(k, 0)):
